@@ -166,8 +166,10 @@ def run(ctx):
                     if dt.kind == 'f' and method in ('mean', 'median'):
                         eps = Fraction(float(np.finfo(dt).eps))
                         tol += eps * len(src[(nme, f)]) * max(abs(exact(v)) for v in src[(nme, f)])
-                    if dt.kind in 'iu' and method == 'mean':
-                        tol += Fraction(1, 10 ** 6) * max(1, abs(want))      # float64 mean of integers
+                    if dt.kind in 'iu' and method in ('mean', 'median'):
+                        # numpy reduces integers in float64: rounding of at most n additions of values up to max|v| (cancellation
+                        # of values near +-2^53 can leave an absolute error of a few units although the exact mean is small)
+                        tol += Fraction(2.0 ** -52) * len(src[(nme, f)]) * max(abs(exact(v)) for v in src[(nme, f)]) + Fraction(1, 10 ** 6) * max(1, abs(want))
                     if abs(got - want) > tol:
                         bad = 'frame %d channel %s: printed %r, source (%s of %r) = %s, tolerance %s' % (
                             f, nme, cell, method, [str(v) for v in src[(nme, f)]], float(want), float(tol))
